@@ -2,7 +2,11 @@ module verifharness
 
 go 1.24.1
 
-require github.com/tdewolff/canvas v0.0.0
+require (
+	github.com/tdewolff/canvas v0.0.0
+	github.com/tdewolff/font v0.0.0-20250314092958-e0eef3f68b08
+	github.com/tdewolff/parse/v2 v2.7.22
+)
 
 require (
 	github.com/BurntSushi/freetype-go v0.0.0-20160129220410-b763ddbfe298 // indirect
@@ -18,9 +22,7 @@ require (
 	github.com/golang/freetype v0.0.0-20170609003504-e2365dfdc4a0 // indirect
 	github.com/srwiley/rasterx v0.0.0-20220730225603-2ab79fcdd4ef // indirect
 	github.com/srwiley/scanx v0.0.0-20190309010443-e94503791388 // indirect
-	github.com/tdewolff/font v0.0.0-20250314092958-e0eef3f68b08 // indirect
 	github.com/tdewolff/minify/v2 v2.23.0 // indirect
-	github.com/tdewolff/parse/v2 v2.7.22 // indirect
 	golang.org/x/image v0.26.0 // indirect
 	golang.org/x/net v0.38.0 // indirect
 	golang.org/x/text v0.24.0 // indirect
